@@ -3,6 +3,7 @@
 Decided: R08.1 argument rejection precedes any state change; R08.2 every success return of the page seek passes the
 result verification; R08.3 failure exits dump the decoder and the position; R08.4 target conversion is frame- and
 link-consistent (K7, rules/frames.py).  Not decided: reachability and landing precision."""
+import cfg
 import k2
 import k3
 from absint import V
@@ -172,6 +173,94 @@ def r08_5(chk, P, E):
     return n
 
 
+def r08_8(chk, P, rule='R08.8'):
+    chk.rule(rule, 'the sample-discard loop of a sample-accurate seek makes progress: in every loop of vorbisfile.c that hands '
+             'a count clamped to a remaining distance to vorbis_synthesis_read (`if(samples>target)samples=target;`), the '
+             'remaining distance is at least one output sample whenever the body runs (K4, run separately for half-rate off '
+             'and on, the loop condition remembered for the identical expression the distance is computed from).  Then each '
+             'iteration either consumes >= 1 sample or, finding too few decoded, fetches a packet (which ends at end of '
+             'stream); with a distance of 0 the iteration changes nothing and the loop never ends')
+    import absint
+    from absint import V, K, Hooks
+    n = 0
+    for F in P.functions():
+        if not F.file.endswith('vorbisfile.c'):
+            continue
+        loops = cfg.loops(F)
+        sites = []
+        for c in F.calls('vorbis_synthesis_read'):
+            b = F.pos[c][0]
+            inner = [h for h, body in loops.items() if b in body]
+            if not inner or len(F.ex[c].get('c', [])) < 2:
+                continue
+            cnt = F.ex[F.strip_casts(F.ex[c]['c'][1])]
+            if cnt['k'] != 'ref':
+                continue
+            cid = cnt['decl'].get('id')
+            # the clamp  if(cnt > T) cnt = T  inside the same loop, before the call
+            for a in F.pos:
+                nd = F.ex[a]
+                if nd['k'] == 'assign' and nd['op'] == '=' and F.ex[F.strip_casts(nd['c'][0])].get('decl', {}).get('id') == cid \
+                        and F.ex[F.strip_casts(nd['c'][0])]['k'] == 'ref' and any(F.pos[a][0] in loops[h] for h in inner) \
+                        and cfg.pos_dominates(F, a, c) is not True:
+                    tn = F.ex[F.strip_casts(nd['c'][1])]
+                    for cnd, pol in common.controlling_conditions(F, a):
+                        cn = F.ex[F.strip_casts(cnd)]
+                        if pol and cn['k'] == 'bin' and cn['op'] in ('>', '>=') and tn['k'] == 'ref' and \
+                                F.ex[F.strip_casts(cn['c'][0])].get('decl', {}).get('id') == cid and \
+                                F.ex[F.strip_casts(cn['c'][1])].get('decl', {}).get('id') == tn['decl'].get('id'):
+                            sites.append((F.strip_casts(cnd), tn['decl']['id'], c))
+        if not sites:
+            continue
+        # the half-rate flag as a local: run the two values apart
+        hsv = set()
+        for e, nd in F.ex.items():
+            if nd['k'] == 'decl':
+                for v in nd.get('vars', []):
+                    if v.get('init') is not None and 'id' in v:
+                        i = F.ex[F.strip_casts(v['init'])]
+                        if i['k'] == 'call' and i['callee'].get('d') == 'vorbis_synthesis_halfrate_p':
+                            hsv.add((e, v['id']))
+
+        class H(Hooks):
+            def fork(self, A, env, e):
+                for (de, vid) in hsv:
+                    if e == de:
+                        outs = []
+                        for val in (0, 1):
+                            e2 = env.copy()
+                            e2[f'v{vid}'] = K(val)
+                            outs.append(e2)
+                        return outs
+                return None
+
+            def join_special(self, k, a, b):
+                return a if a == b else None
+
+        def part(A, env):
+            return tuple((env.get(f'v{vid}').const() if isinstance(env.get(f'v{vid}'), V) else None) for (_, vid) in sorted(hsv))
+        seen = {}
+
+        def obs(A, env, e, v):
+            for (cnd, tid, c) in sites:
+                if e == cnd:
+                    seen.setdefault(cnd, []).append((part(A, env), env.get(f'v{tid}') or absint.TOP))
+        A = absint.Analyzer(P, F, hooks=H(), partition=part)
+        A.observers.append(obs)
+        A.run()
+        for i, (cnd, tid, c) in enumerate(sorted(set(sites), key=lambda t: F.ex[t[0]]['loc'])):
+            vals = seen.get(cnd) or []
+            chk.require(vals, f'{F.name}: the clamp of the discard loop is unreachable')
+            bad = sorted({(pk, str(v)) for (pk, v) in vals if v.lo < 1})
+            nm = F.vars.get(tid, {}).get('name', '?')
+            chk.ob(rule, F.name, f'discard-loop-distance>=1#{i}', not bad, F.where(cnd),
+                   f'{nm} >= 1 in all {len({pk for pk, _ in vals})} half-rate cases' if not bad else
+                   f'{nm} (the distance left, in output samples) can be {bad[0][1]} inside the loop (half-rate flag {bad[0][0]}): '
+                   'nothing is consumed, no packet is fetched, and the loop condition stays true')
+            n += 1
+    return n
+
+
 def run(chk, P):
     E = getattr(P, '_effects', None) or k3.Effects(P)
     P._effects = E
@@ -183,6 +272,8 @@ def run(chk, P):
     chk.floor('R08.3', 3)
     r08_5(chk, P, E)
     chk.floor('R08.5', 3)
+    r08_8(chk, P)
+    chk.floor('R08.8', 1)
     # R08.4a: the conversion of a target uses the set-up of the link it selected (shared implementation with C09 R09.4/R09.1)
     from rules import c09
 
